@@ -528,6 +528,41 @@ theorem wf_setExts {t : Tbs} {es es' : List Ext} (h : t.wf = true) (he : t.exts 
     rw [this]
     omega
 
+/-! ### well-formedness does not depend on where an extension is inserted -/
+
+theorem all_insertAt (f : Ext → Bool) (es : List Ext) (i : Nat) (x : Ext) : (insertAt es i x).all f = (f x && es.all f) := by
+  have e : es.all f = ((es.take i).all f && (es.drop i).all f) := by
+    rw [← List.all_append, List.take_append_drop]
+  rw [insertAt, List.all_append, List.all_cons, e]
+  cases f x <;> cases (es.take i).all f <;> simp
+
+theorem encExts_insertAt_length (es : List Ext) (i : Nat) (x : Ext) :
+    (encExts (insertAt es i x)).length = (encExts (x :: es)).length := by
+  have e := congrArg (fun l => (encExts l).length) (List.take_append_drop i es)
+  simp only [encExts_append, List.length_append] at e
+  simp only [insertAt, encExts_append, encExts_cons, List.length_append]
+  omega
+
+theorem seqLen_congr {a b : Bytes} (h : a.length = b.length) (tag : Bytes) :
+    (encTlv ⟨tag, a⟩).length = (encTlv ⟨tag, b⟩).length := by
+  rw [encTlv_length, encTlv_length]; simp only [h]
+
+theorem extsOk_insertAt (es : List Ext) (i : Nat) (x : Ext) : extsOk (insertAt es i x) = extsOk (x :: es) := by
+  have h := encExts_insertAt_length es i x
+  simp only [extsOk, all_insertAt, List.all_cons, h, seqLen_congr h [0x30]]
+
+theorem wf_insertAt (t : Tbs) (es : List Ext) (i : Nat) (x : Ext) :
+    (t.withExts (insertAt es i x)).wf = (t.withExts (x :: es)).wf := by
+  have h := encExts_insertAt_length es i x
+  have h2 := seqLen_congr (seqLen_congr h [0x30]) [0xa3]
+  have hf : (concatTlvs (t.withExts (insertAt es i x)).fields).length = (concatTlvs (t.withExts (x :: es)).fields).length := by
+    rw [fields_length, fields_length]
+    simp only [Tbs.withExts, Option.map, optList, concatTlvs, List.flatMap_cons, List.flatMap_nil, List.append_nil, extsField]
+    have : ({ t with exts := some (insertAt es i x) } : Tbs).pre = ({ t with exts := some (x :: es) } : Tbs).pre := rfl
+    rw [this, h2]
+  simp only [Tbs.wf, hf]
+  simp only [Tbs.withExts, optAll, extsOk_insertAt]
+
 /-! ### insertion then removal; the first-match helpers of the authority-key-id update; SCT items -/
 
 theorem mem_take_of_noOid {oid : Bytes} {es : List Ext} (h : hasOid oid es = false) (i : Nat) :
